@@ -81,7 +81,9 @@ const (
 	opNop         = 0x61
 )
 
-func p2pkh(h []byte) []byte { return cat([]byte{opDup, opHash160}, push(h), []byte{opEqualVerify, opCheckSig}) }
+func p2pkh(h []byte) []byte {
+	return cat([]byte{opDup, opHash160}, push(h), []byte{opEqualVerify, opCheckSig})
+}
 func p2pk(pk []byte) []byte { return cat(push(pk), []byte{opCheckSig}) }
 func p2sh(script []byte) []byte {
 	return cat([]byte{opHash160}, push(address.Hash160(script)), []byte{opEqual})
